@@ -239,7 +239,8 @@ def witness(model, r):
     for i, k in enumerate(kinds):
         st = r.ctx.notes["script"][i]
         script.append({"status": k, "code": i32(st.fields[0]) if k == "Code" else None})
-    return {"tests": [{"timeout": odur(field_of(field_of(t, "config"), "timeout")), "skip": oint(field_of(field_of(t, "config"), "skip_document_code"))} for t in tcs],
+    return {"tests": [{"timeout": odur(field_of(field_of(t, "config"), "timeout")), "skip": oint(field_of(field_of(t, "config"), "skip_document_code")),
+                       "expected": oint(field_of(t, "exit_code"))} for t in tcs],
             "script": script,
             "total_timeout": odur(field_of(field_of(cx, "config"), "total_timeout")),
             "default_skip": oint(field_of(field_of(field_of(cx, "config"), "defaults"), "skip_document_code")),
